@@ -110,6 +110,9 @@ def main():
             print("VIOLATION property=%s replay=%s" % (prop, path))
             print("  kind=%s sig=%s detail=%s" % (v["kind"], v["sig"], str(v["detail"])[:300]))
         rc = 1
+    if rc == 0 and not res.samples:
+        print("INCONCLUSIVE: the run recorded no sample case")
+        rc = 2
     min_eval = extra.get("min_evaluations", 1)
     if rc == 0 and (res.evaluations < min_eval or len(res.distinct) < 2):
         print("INCONCLUSIVE: too few cases observed (%d < %d)" % (res.evaluations, min_eval))
